@@ -93,8 +93,8 @@ def impl_one(d, k, c, q):
         'pts=' + (','.join(f'{p[0]}.{p[1]}' for p in R.points)
                   if R.points else '-'),
         f'vol={R.volume}', f'width={R.width}',
-        f'shl={call(lambda: R.shift_left(k), s_region)}',
-        f'shr={call(lambda: R.shift_right(k), s_region)}',
+        f'shl={call(lambda: R.shift_left(k) if k % 2 else R.shift_right(-k) if k else R.shift_left(0), s_region)}',
+        f'shr={call(lambda: R.shift_right(k) if k % 2 or not k else R.shift_left(-k), s_region)}',
         f'tr={tr}',
         f'ovpt={s_b(R.overlaps((c, q)))}', f'haskey={s_b(q in R)}',
         f'ltpt={call(lambda: R.__lt__((c, q)), ltpt)}',
@@ -134,6 +134,15 @@ def impl_pair(d, e):
     from bqskit.ir.region import CircuitRegion
     R = CircuitRegion(d)
     S = CircuitRegion(e)
+    # glue: the methods accept a plain mapping (CircuitRegionLike) as well;
+    # equal regions hash equally whatever the dict order; copy() is equal
+    if (len(d) + len(e)) % 2:
+        S = dict(e)
+    SR = CircuitRegion(e)
+    if R == SR and hash(R) != hash(SR):
+        return '!!hash-differs-for-equal-regions'
+    if not (R.copy() == R and hash(R.copy()) == hash(R)):
+        return '!!copy-not-equal'
     return ' '.join([
         f'ov={s_b(R.overlaps(S))}', f'in={s_b(S in R)}',
         f'inter={call(lambda: R.intersection(S), s_region)}',
